@@ -32,10 +32,21 @@ pub struct Step {
     pub kinds: Vec<String>,
 }
 
+/// The clock seam a plan is executed under (`clockwarp.so`): every reading of a clock returns
+/// the real value plus `base_ns` plus `step_ns` per reading made so far.
+#[derive(Clone, Debug, Eq, PartialEq, Serialize, Deserialize)]
+pub struct ClockWarp {
+    pub base_ns: i128,
+    pub step_ns: i128,
+}
+
 #[derive(Clone, Debug, Default, Serialize, Deserialize)]
 pub struct Plan {
     pub reqs: Vec<Request>,
     pub steps: Vec<Step>,
+    /// None: the real clock
+    #[serde(default, skip_serializing_if = "Option::is_none")]
+    pub clock: Option<ClockWarp>,
 }
 
 impl Plan {
@@ -60,6 +71,7 @@ impl Plan {
                 policy: Policy::Keep,
                 kinds: vec![],
             }],
+            clock: None,
         }
     }
     /// Drops requests no step refers to and renumbers.
